@@ -1,11 +1,25 @@
 """bin/check configuration of property C03 (see bin/props.py)."""
 
-PROP = {
-    "lean": "MpsProps.C03",
-    "theorems": [],
-    "generated": [],
-    "suites": [{"name": "sess-tamper", "quick": 45, "thorough": 900}],
-    "propfields": {"sess-tamper": ["ok"]},
-    "level_text": "Proof + judged sessions: outputs are verify-guarded and Feldman/decommit/echo-protected (theorem list); a tamper catalogue generated from the real wire messages (every CBOR field: zeroed, re-randomised, bit-flipped, truncated, extended, copied from another message; whole contents substituted) is applied by one deviating participant in REAL sessions of FROST, FROST-Taproot, Doerner and (a slice of) CMP keygen/sign/presign through the real handlers, and what every honest party ends with is judged in Lean by independent verifiers: a finished honest party holds a valid signature for the agreed message and key, or key material consistent with the other honest finishers.",
-    "level_note": "Secrecy / zero-knowledge and the soundness of the sigma protocols themselves are not claimed (the property is about integrity of the result). Sessions are sampled; CMP sessions cost seconds each and form a seeded slice in the quick tier.",
-}
+PROP = {'lean': 'MpsProps.C03',
+ 'theorems': ['Mps.C01alg.frost_share_check_sound',
+              'Mps.C01alg.frost_share_check_complete',
+              'Mps.C01alg.ecdsa_s_unique',
+              'Mps.C01alg.schnorr_z_unique',
+              'Mps.C02alg.keygen_consistent',
+              'Mps.C02alg.reconstruct_any_subset_public'],
+ 'generated': ['Mps.AlgGen.gen_frostKeygenVss',
+               'Mps.AlgGen.gen_cmpKeygenVss',
+               'Mps.AlgGen.gen_frostSignRound3',
+               'Mps.AlgGen.gen_cmpSignRound5',
+               'Mps.AlgGen.gen_frostKeygenChecks',
+               'Mps.AlgGen.gen_cmpKeygenChecks'],
+ 'suites': [{'name': 'sess-tamper', 'quick': 45, 'thorough': 900}],
+ 'propfields': {'sess-tamper': ['ok']},
+ 'level_text': 'Proof + judged sessions: outputs are verify-guarded and Feldman/decommit/echo-protected (theorem list); a tamper catalogue generated '
+               'from the real wire messages (every CBOR field: zeroed, re-randomised, bit-flipped, truncated, extended, copied from another message; '
+               'whole contents substituted) is applied by one deviating participant in REAL sessions of FROST, FROST-Taproot, Doerner and (a slice '
+               'of) CMP keygen/sign/presign through the real handlers, and what every honest party ends with is judged in Lean by independent '
+               'verifiers: a finished honest party holds a valid signature for the agreed message and key, or key material consistent with the other '
+               'honest finishers.',
+ 'level_note': 'Secrecy / zero-knowledge and the soundness of the sigma protocols themselves are not claimed (the property is about integrity of the '
+               'result). Sessions are sampled; CMP sessions cost seconds each and form a seeded slice in the quick tier.'}
